@@ -47,6 +47,13 @@ func eShapes() []eShape {
 		{"roleuser", roleN("A", e(), e(), kvNode("run_start_time_ms", "ru", "k0", "ru"),
 			roleN("T", e(), e(), kvNode("lhc_period", "tu", "run_number", "tu")),
 			roleN("A", e(), kvNode("k0", "v"), e(), roleN("C", e(), e(), kvNode("enter_state_time_ms", "cu")))), e()},
+		// the workflow includes a sub-workflow once per detector: the include site and the included root have
+		// opinions on the environment's keys, the iteration variable shadows a store key
+		{"incl", roleN("A", e(), e(), e(),
+			iterN("k0", []string{"x0", "x1"}, inclN(kvNode("pdp_n_hbf_per_tf", "sited"), kvNode("lhc_period", "sitev"),
+				roleN("A", kvNode("lhc_period", "subd", "run_number", "subd"), e(), kvNode("run_end_time_ms", "subu"),
+					roleN("T", e(), e(), e())))),
+			roleN("C", e(), e(), e())), e()},
 	}
 }
 
